@@ -93,16 +93,15 @@ func mergeSpec(s, t Range) Range {
 
 //@ func (s Range) Merge(t Range) (union Range, ok bool)
 //@   props C15
-//@   requires validRange(s) && validRange(t)
-//@   ensures validRange(union)
-//@   ensures ok ==> forall q uint32 :: inRange(union, q) == (inRange(s, q) || inRange(t, q))
+//@   ensures validRange(s) && validRange(t) ==> validRange(union)
+//@   ensures validRange(s) && validRange(t) && ok ==> forall q uint32 :: inRange(union, q) == (inRange(s, q) || inRange(t, q))
 //@   ensures !ok ==> union == s
-//@   ensures !ok ==> !(exists q uint32 :: inRange(s, q) && inRange(t, q))
-//@   ensures !ok && s.Start != 0 && t.Start != 0 && s.Start <= t.Start ==> s.Stop != 0 && s.Stop < 4294967295 && s.Stop+1 < t.Start
-//@   ensures !ok && s.Start != 0 && t.Start != 0 && t.Start <= s.Start ==> t.Stop != 0 && t.Stop < 4294967295 && t.Stop+1 < s.Start
-//@   ensures ok ==> forall q uint32 :: memR(union, q) == (memR(s, q) || memR(t, q))
-//@   ensures ok == mergeable(s, t)
-//@   ensures ok ==> union == mergeSpec(s, t)
+//@   ensures validRange(s) && validRange(t) && !ok ==> !(exists q uint32 :: inRange(s, q) && inRange(t, q))
+//@   ensures validRange(s) && validRange(t) && !ok && s.Start != 0 && t.Start != 0 && s.Start <= t.Start ==> s.Stop != 0 && s.Stop < 4294967295 && s.Stop+1 < t.Start
+//@   ensures validRange(s) && validRange(t) && !ok && s.Start != 0 && t.Start != 0 && t.Start <= s.Start ==> t.Stop != 0 && t.Stop < 4294967295 && t.Stop+1 < s.Start
+//@   ensures validRange(s) && validRange(t) && ok ==> forall q uint32 :: memR(union, q) == (memR(s, q) || memR(t, q))
+//@   ensures validRange(s) && validRange(t) ==> ok == mergeable(s, t)
+//@   ensures validRange(s) && validRange(t) && ok ==> union == mergeSpec(s, t)
 
 // ---------------------------------------------------------------------------
 // Sets.
@@ -130,20 +129,19 @@ func inSet(s Set, q uint32) bool {
 
 //@ func (s Set) search(q uint32) (i int, ok bool)
 //@   props C15
-//@   requires canon(s)
-//@   ensures ok == inSet(s, q)
-//@   ensures ok ==> 0 <= i && i < len(s) && inRange(s[i], q)
-//@   ensures !ok ==> 0 <= i && i <= len(s) && (forall k int :: 0 <= k && k < i ==> s[k].Less(q)) && (i < len(s) ==> !s[i].Less(q))
+//@   ensures 0 <= i && i <= len(s) && (ok ==> i < len(s))
+//@   ensures canon(s) ==> ok == inSet(s, q)
+//@   ensures ok ==> inRange(s[i], q)
+//@   ensures canon(s) && !ok ==> (forall k int :: 0 <= k && k < i ==> s[k].Less(q)) && (i < len(s) ==> !s[i].Less(q))
 //@   loop 0 vars (min int, max int)
 //@   loop 0 invariant 0 <= min && max <= len(s)-1 && (min <= max || len(s) == 0)
-//@   loop 0 invariant forall k int :: 0 <= k && k < min ==> s[k].Less(q)
-//@   loop 0 invariant forall k int :: max <= k && k < len(s) && max < len(s)-1 ==> !s[k].Less(q)
+//@   loop 0 invariant canon(s) ==> forall k int :: 0 <= k && k < min ==> s[k].Less(q)
+//@   loop 0 invariant canon(s) ==> forall k int :: max <= k && k < len(s) && max < len(s)-1 ==> !s[k].Less(q)
 //@   loop 0 decreases max - min
 
 //@ func (s Set) Contains(q uint32) (result bool)
 //@   props C15
-//@   requires canon(s)
-//@   ensures result == (q != 0 && inSet(s, q))
+//@   ensures canon(s) ==> result == (q != 0 && inSet(s, q))
 
 //@ func (s Set) Dynamic() (result bool)
 //@   props C15
@@ -193,8 +191,99 @@ func inSet(s Set, q uint32) bool {
 //
 //@ func (ptr *Set) insertAt(i int, v Range)
 //@   props C15
+//@   modifies *ptr
 //@   requires ptr != nil && 0 <= i && i <= len(*ptr)
 //@   ensures len(*ptr) == old(len(*ptr))+1
 //@   ensures (*ptr)[i] == v
 //@   ensures forall k int :: 0 <= k && k < i ==> (*ptr)[k] == old((*ptr)[k])
 //@   ensures forall k int :: i < k && k < len(*ptr) ==> (*ptr)[k] == old((*ptr)[k-1])
+//@   ensures __base(*ptr) == old(__base(*ptr)) || __fresh(*ptr)
+
+// insert: what is proved of it here is (a) run-time safety for every set and
+// every valid range, (b) that the set's storage afterwards is its own old
+// storage or newly allocated (never shared with anything else), and (c) that
+// the length grows by at most one. That the result is canonical and contains
+// exactly the old members plus v is NOT proved: the obligations of that
+// stronger contract (kept in /verif/notes/insert_canon.txt) discharge only in
+// 10-60 s per query, i.e. not stably, see DESIGN.md.
+//
+//@ func (ptr *Set) insert(v Range)
+//@   props C15
+//@   modifies *ptr
+//@   requires ptr != nil && validRange(v)
+//@   ensures __base(*ptr) == old(__base(*ptr)) || __fresh(*ptr)
+//@   ensures len(*ptr) <= old(len(*ptr))+1
+//@   loop 0 vars (j int, cell s Set)
+//@   loop 0 locals (i int)
+//@   loop 0 invariant 0 <= i && i < j && j <= len(s) && len(s) == old(len(*ptr)) && __base(s) == old(__base(*ptr))
+//@   loop 0 decreases len(s) - j
+
+// normRange: the range denoted by two endpoints given in either order, with 0
+// standing for "*" (RFC 3501 seq-range: "2:4" and "4:2" are the same; "*" is
+// the largest number in use).
+//
+//@ pure
+func normRange(a, b uint32) Range {
+	if a == 0 {
+		return Range{b, 0} // "*:b" == "b:*", and "*:*" == "*"
+	}
+	if b == 0 {
+		return Range{a, 0}
+	}
+	if b < a {
+		return Range{b, a}
+	}
+	return Range{a, b}
+}
+
+// The public insertion methods hand insert only ranges that satisfy the
+// representation invariant, each argument exactly once and unchanged, and never
+// let the set share storage with an argument.
+//
+//@ func (s *Set) AddNum(q ...uint32)
+//@   props C15
+//@   requires s != nil
+//@   callsite Set.insert(ptr *Set, v Range) requires ptr == s && validRange(v) && v.Start == v.Stop && (exists k int :: 0 <= k && k < len(q) && q[k] == v.Start)
+//@   ensures __base(*s) == old(__base(*s)) || __fresh(*s)
+//@   ensures len(*s) <= old(len(*s))+len(q)
+//@   loop 0 vars (i int)
+//@   loop 0 invariant -1 <= i && i < len(q) && (__base(*s) == old(__base(*s)) || __fresh(*s)) && len(*s) <= old(len(*s))+i+1
+//@   loop 0 decreases len(q) - i
+
+//@ func (s *Set) AddRange(start, stop uint32)
+//@   props C15
+//@   requires s != nil
+//@   callsite Set.insert(ptr *Set, v Range) requires ptr == s && validRange(v) && v == normRange(start, stop)
+//@   ensures __called("Set.insert")
+//@   ensures __base(*s) == old(__base(*s)) || __fresh(*s)
+
+//@ func (s *Set) AddSet(t Set)
+//@   props C15
+//@   requires s != nil
+//@   requires forall k int :: 0 <= k && k < len(t) ==> validRange(t[k])
+//@   requires len(t) == 0 || __base(*s) != __base(t)
+//@   callsite Set.insert(ptr *Set, v Range) requires ptr == s && validRange(v) && (exists k int :: 0 <= k && k < len(t) && t[k] == v)
+//@   ensures __base(*s) == old(__base(*s)) || __fresh(*s)
+//@   ensures forall k int :: 0 <= k && k < len(t) ==> t[k] == old(t[k])
+//@   loop 0 vars (i int)
+//@   loop 0 invariant -1 <= i && i < len(t) && (__base(*s) == old(__base(*s)) || __fresh(*s))
+//@   loop 0 invariant forall k int :: 0 <= k && k < len(t) ==> t[k] == old(t[k])
+//@   loop 0 decreases len(t) - i
+
+// Nums enumerates exactly when every range is static, terminates (each
+// Range.append does, also at the uint32 boundary), and what it yields are
+// members of the set.
+//
+//@ pure
+func staticUpTo(s Set, n int) bool {
+	return __forall(func(k int) bool { return !(0 <= k && k < n && k < len(s)) || (s[k].Start != 0 && s[k].Stop != 0) })
+}
+
+//@ func (s Set) Nums() (nums []uint32, ok bool)
+//@   props C15
+//@   requires forall k int :: 0 <= k && k < len(s) ==> validRange(s[k])
+//@   ensures ok == staticUpTo(s, len(s))
+//@   ensures !ok ==> len(nums) == 0
+//@   loop 0 vars (nums []uint32, i int)
+//@   loop 0 invariant -1 <= i && i < len(s) && staticUpTo(s, i+1)
+//@   loop 0 decreases len(s) - i
